@@ -19,6 +19,9 @@ TYPES = {
     "ch": ("char(1)", "char", 1),
     "big": ("BIGINT", "BIGINT", None),
     "txt": ("text", "text", None),
+    "ts0": ("timestamp(0)", "timestamp", 0),
+    "vc0": ("varchar(0)", "varchar", 0),
+    "dec100": ("decimal(10,0)", "decimal", [10, 0]),
 }
 # default forms: id -> (ddl, expected value)
 DEFAULTS = {
@@ -53,8 +56,12 @@ ABSTRACT_COLS = ("a", "b", "c", "d", "e")
 def name_map(seed):
     """abstract column names -> concrete identifiers.  seed 0 keeps a, b, c; other seeds draw keyword-shaped but legal
     identifiers (a keyword with a suffix / prefix, any case) so that prefix / substring matching of keywords shows."""
-    if seed % 4 == 0:
+    if seed % 5 == 0:
         return {c: c for c in ABSTRACT_COLS}
+    if seed % 5 == 1:   # names that merely START with a word the lexer matches by regular expression / prefix
+        return {"a": "collateral_id", "b": "auto_incremented", "c": "ARRAY_len", "d": "autoincrement_no", "e": "Collated_at"}
+    if seed % 5 == 2:   # legal sibling names that differ only by quoting / letter case
+        return {"a": '"Col"', "b": "col", "c": "COL", "d": "`col`", "e": "[Col]"}
     rnd = random.Random(f"names{seed}")
     out, used = {}, set()
     for c in ABSTRACT_COLS:
